@@ -275,6 +275,39 @@ func ibltVariants(op, pos string, level int, rnd *rand.Rand) []concrete {
 			}
 			put(fmt.Sprintf("random-small-counts-%d", k), append([]byte{}, g...))
 		}
+	case "random/any":
+		n := 100
+		if level > 0 {
+			n = 3000
+		}
+		for k := 0; k < n; k++ {
+			b := append([]byte{}, valid...)
+			switch rnd.Intn(3) {
+			case 0: // bit flips
+				for j := 0; j < 1+rnd.Intn(6); j++ {
+					b[rnd.Intn(len(b))] ^= byte(1 << uint(rnd.Intn(8)))
+				}
+			case 1: // random buckets with small counts
+				for j := 0; j < 1+rnd.Intn(40); j++ {
+					bi := rnd.Intn(nb)
+					rnd.Read(b[bi*bb : (bi+1)*bb])
+					binary.LittleEndian.PutUint32(b[bi*bb:], uint32(int32(rnd.Intn(5)-2)))
+				}
+			case 2: // a valid filter of other content with swapped buckets
+				var refs []string
+				for j := 0; j < rnd.Intn(50); j++ {
+					refs = append(refs, fmt.Sprint("q", rnd.Intn(1000)))
+				}
+				b = ibltBytes(refs...)
+				for j := 0; j < rnd.Intn(4); j++ {
+					x, y := rnd.Intn(nb), rnd.Intn(nb)
+					tmp := append([]byte{}, b[x*bb:(x+1)*bb]...)
+					copy(b[x*bb:(x+1)*bb], b[y*bb:(y+1)*bb])
+					copy(b[y*bb:(y+1)*bb], tmp)
+				}
+			}
+			put(fmt.Sprintf("random-%d", k), b)
+		}
 	case "unusual/top":
 		put("valid-empty", ibltBytes())
 		put("valid-600-refs", func() []byte {
